@@ -327,10 +327,6 @@ def _run_check(ctx: Ctx, check: PropertyCheck, replay: str | None) -> int:
         else:
             violations.append((s, tr, v))
 
-    for w in check.REQUIRED_WITNESSES:
-        if w not in wit:
-            raise MachineryError(f"vacuous run: clause witness {w!r} never exercised (got {sorted(wit)})")
-
     for idx, n in sorted(known_hit.items()):
         f = findings[idx]
         print(f"KNOWN-FINDING: property={check.ID} {f.get('what','')} [{f.get('clause')} sig={f.get('sig')}; {n} trace(s)]")
@@ -351,6 +347,12 @@ def _run_check(ctx: Ctx, check: PropertyCheck, replay: str | None) -> int:
         print(f"VIOLATION property={check.ID} replay={path}")
         print(f"  clause={list(v.bad)} at event {v.pos}; scenario={json.dumps(_jsonable(s.data))[:400]}")
         rc = 1
+
+    if rc == 0:
+        # non-vacuity is only demanded of a run that reports no violation (a broken tree may never reach a clause)
+        for w in check.REQUIRED_WITNESSES:
+            if w not in wit:
+                raise MachineryError(f"vacuous run: clause witness {w!r} never exercised (got {sorted(wit)})")
 
     model_bad = []
     for m in models:
